@@ -52,6 +52,13 @@ Proof.
   - split; [apply r_advance_wf; [exact Hwf|lia]|]. split; [apply bytes_ok_firstn; exact H2|]. discriminate.
 Qed.
 
+(* deciding bytes_ok on a concrete byte string (for Examples) *)
+Definition bytes_okb (bs : list Z) : bool := forallb (fun b => (0 <=? b) && (b <? 256)) bs.
+Lemma bytes_okb_ok bs : bytes_okb bs = true -> bytes_ok bs.
+Proof.
+  unfold bytes_okb, bytes_ok. rewrite forallb_forall, Forall_forall. intros H x Hx. specialize (H x Hx). unfold byte_ok. lia.
+Qed.
+
 (* ---------------- packets ---------------- *)
 
 Definition packet_ok (p : Packet) : Prop := bytes_ok (Packet_Payload p).
